@@ -48,10 +48,11 @@ var propertyConfigs = map[string]*propertyConfig{
 			"at equal scales the result is the component-wise sum / difference in the ring, a component only one operand has is copied - negated when it is the subtrahend's (finding F39) - and the output has the larger degree; " +
 			"at different scales the result is r0*op0 +- r1*op1 with the two factors of matchScalesBinary (named, not interpreted), also when the receiver is the second operand (finding F32).  " +
 			"Add / Sub / Mul with an integer scalar: the output records the scale of the input whatever the receiver held (finding F34), has the degree of the input, and addition copies the untouched components.  " +
+			"Mul with a ciphertext operand (BGV style, no relinearisation; receiver distinct or equal to either operand): the degree-2 tensor (a0*b0, a0*b1 + a1*b0, a1*b1), every component times the plaintext modulus T (the evaluator's RNS scalar, named, ASSUMED in double Montgomery form), out of the Montgomery domain, output of degree 2.  " +
 			"Rescale: on success the receiver has the degree of the input whatever degree it had (finding F40), the input's flags, no index is out of range (obligation kind index), and an input at level 0 is refused with an error.",
 		Assumptions: append(append([]string{}, engineBAssumptions...), "scales are compared and converted by TRUSTED leaves whose outcome is NAMED by uninterpreted functions of the scale's contents (cmpval, uf_scale64, uf_msb0/1): the contracts say which branch a comparison selects and which factors are applied, not what the factors are",
 			"Ring.MulScalar, MulScalarThenAdd / ThenSub, DivRoundByLastModulusNTT, Scale.Mul / Div and the big-integer scalar products are TRUSTED abstract leaves (ring-element reading of the row-level contracts of C01 / C02)",
-			"NOT decided: anything about programs (noise budget, exactness after decoding), the value of the scale-matching factors and of the recorded scale after scale matching, multiplication / relinearisation / tensoring, the scale-invariant (BFV) style, plaintext and vector operands, the VALUE of a rescaled component (rounded division is not a ring operation)"),
+			"NOT decided: anything about programs (noise budget, exactness after decoding), the value of the scale-matching factors and of the recorded scale after scale matching, relinearisation, multiply-then-add, the scale-invariant (BFV) style, the scale recorded by a product, plaintext and vector operands, the VALUE of a rescaled component (rounded division is not a ring operation)"),
 		Trusted:     stdTrusted,
 	},
 	"C14": {
